@@ -358,3 +358,28 @@ def shrink_candidates(c):
             for i in range(len(l)):
                 d = dict(c); d[k] = l[:i] + l[i + 1:]
                 yield d
+
+# ---- enc tie: the Coq encoders of the round-trip theorems (Proofs/IndexFacts.v) on the same structured cases
+ENC_TIE_IMPORTS = ['Proofs.IndexFacts']
+def enc_tie_term(c):
+    from framework import cz, cbytes, clist
+    k = c['kind']
+    if k == 'key':
+        bo = 'Little' if c['bo'] else 'Big'
+        es = clist(['Build_key_entry %s %s %s' % (cz(n), cz(o), cbytes(cc)) for n, o, cc in c['entries']])
+        t = '(enc_key %s %s %s %s %s ++ %s)%%list' % (bo, cz(c['hdr'][0]), cz(c['hdr'][1]), cz(len(c['entries'])), es, cbytes(b'\0' * (12 * c['unused'])))
+    elif k == 'cas':
+        t = '(enc_cas %s ++ %s)%%list' % (clist([cz(v) for v in c['vals']]), cbytes(c['tail']))
+    elif k == 'lctx':
+        es = clist(['(%s, %s, %s)' % (cz(a), cz(b), cz(u)) for a, b, u in c['entries']])
+        t = 'enc_lctx %s %s %s %s %s' % (cz(c['hdr'][0]), cz(c['hdr'][1]), cz(c['ns2']), cbytes(b'\xee' * c['gap']), es)
+    elif k == 'lnam':
+        h = c['hdr']
+        if h[2] != h[3]:
+            return None
+        t = '(enc_lnam %s %s %s %s %s ++ %s)%%list' % (cz(h[0]), cz(h[1]), cz(h[2]), cz(h[4]), clist([cbytes(n) for n in c['names']]), cbytes(c['tail']))
+    elif k == 'vwlb':
+        t = 'enc_vwlb %s 0' % clist(['(%s, %s)' % (cbytes(l), cz(fr)) for fr, l in c['markers']])
+    else:
+        return None
+    return t, encode(c)[1]
